@@ -708,6 +708,40 @@ func (p *pool) rules(t *rapid.T) map[string]func(*rapid.T) {
 			inplaceOp(op, x.b, y)
 			x.m = nm
 		},
+		"fromDense": func(t *rapid.T) {
+			// a new member from a plain bit vector whose length is not a multiple of a chunk (1024 words): the
+			// trailing piece holds a drawn number of bits per word
+			full := rapid.IntRange(0, 2).Draw(t, "fullChunks")
+			tail := rapid.SampledFrom([]int{0, 1, 7, 63, 64, 100, 500, 1023}).Draw(t, "tailWords")
+			bitsPerWord := rapid.SampledFrom([]int{1, 3, 4, 5, 8, 33, 64}).Draw(t, "bitsPerWord")
+			words := make([]uint64, full*1024+tail)
+			pal := []uint64{0, 1, 0x8000000000000001, 0x0101010101010101, ^uint64(0)}
+			for c := 0; c < full; c++ {
+				base := pal[rapid.IntRange(0, len(pal)-1).Draw(t, "w")]
+				for i := 0; i < 1024; i++ {
+					words[c*1024+i] = base ^ uint64(i%7)
+				}
+			}
+			w := ^uint64(0)
+			if bitsPerWord < 64 {
+				w = uint64(1)<<uint(bitsPerWord) - 1
+			}
+			for i := full * 1024; i < len(words); i++ {
+				words[i] = w << uint(i%(65-bitsPerWord))
+			}
+			m := model.New()
+			for i, wv := range words {
+				for b := 0; b < 64; b++ {
+					if wv>>uint(b)&1 == 1 {
+						m.Add(uint64(i)*64 + uint64(b))
+					}
+				}
+			}
+			doCopy := rapid.Bool().Draw(t, "doCopy")
+			nm := p.add(roaring.FromDense(words, doCopy), m, !doCopy)
+			p.keep = append(p.keep, words)
+			p.log("#%d=FromDense(%d full chunks + %d words with %d bits each, doCopy=%v)", nm.id, full, tail, bitsPerWord, doCopy)
+		},
 		"addManyComb": func(t *rapid.T) {
 			// one AddMany call that sprinkles many isolated values over a chunk (the last chunk the call touches)
 			x, k, ok := p.pickChunk(t)
@@ -989,6 +1023,15 @@ func checkSizeBound(fail func(string, ...interface{}), x *member, when string) {
 		fail("bitmap #%d%s: GetSerializedSizeInBytes=%d but WriteTo emits %d bytes", x.id, when, size, len(by))
 	}
 	if n == 0 {
+		// the empty bitmap still has its 8-byte header: N = 0 integers below any x
+		for _, u := range []uint64{0, 1, 65536, 1 << 32} {
+			if readme := 8 + 9*((u+65535)/65536); size > readme {
+				fail("bitmap #%d%s: the empty bitmap serializes to %d bytes > README bound %d for x=%d", x.id, when, size, readme, u)
+			}
+			if bd := roaring.BoundSerializedSizeInBytes(0, u); size > bd {
+				fail("bitmap #%d%s: the empty bitmap serializes to %d bytes > BoundSerializedSizeInBytes(0,%d) = %d", x.id, when, size, u, bd)
+			}
+		}
 		return
 	}
 	max := uint64(x.b.Maximum())
